@@ -4,6 +4,7 @@
   polynomials whose weighted tensor products `Lagrange.predict` evaluates; weights may carry any common factor c ≠ 0.
 -/
 import AmiscProofs.BaryDeriv
+import AmiscProofs.TensorDeriv
 
 open Polynomial Finset Lagrange
 
@@ -38,6 +39,70 @@ theorem grad_at_other_node (hvs : Set.InjOn v s) (i j : ι) (hi : i ∈ s) (hj :
     (c * nodalWeight s v j / (c * nodalWeight s v i)) / (v i - v j) =
       eval (v i) (derivative (Lagrange.basis s v j)) :=
   Amisc.Bary.dBasis_at_other_node hvs i j hi hj hij hc
+
+/-! ## second derivatives (diagonal entries of `Lagrange.hessian`), Mathlib form -/
+
+theorem hess_offnode (hvs : Set.InjOn v s) (j : ι) (hj : j ∈ s) {x c : F} (hc : c ≠ 0) (hx : ∀ i ∈ s, x ≠ v i) :
+    let S := ∑ i ∈ s, c * nodalWeight s v i * (x - v i)⁻¹
+    let qp := - ∑ i ∈ s, c * nodalWeight s v i * ((x - v i)⁻¹) ^ 2
+    let qpp := 2 * ∑ i ∈ s, c * nodalWeight s v i * ((x - v i)⁻¹) ^ 3
+    (c * nodalWeight s v j / (S * (x - v j))) *
+        ((- qpp / S + 2 * ((qp / S) * (qp / S))) + (2 * (qp / (S * (x - v j))) + 2 / ((x - v j) * (x - v j)))) =
+      eval x (derivative (derivative (Lagrange.basis s v j))) :=
+  Amisc.Bary.d2Basis_offnode hvs j hj hc hx
+
+theorem hess_at_other_node (hvs : Set.InjOn v s) (i j : ι) (hi : i ∈ s) (hj : j ∈ s) (hij : i ≠ j) {c : F}
+    (hc : c ≠ 0) :
+    (-2 * (c * nodalWeight s v j / (c * nodalWeight s v i)) / (v i - v j)) *
+        ((∑ p ∈ s.erase i, (c * nodalWeight s v p / (c * nodalWeight s v i)) / (v i - v p)) + 1 / (v i - v j)) =
+      eval (v i) (derivative (derivative (Lagrange.basis s v j))) :=
+  Amisc.Bary.d2Basis_at_other_node hvs i j hi hj hij hc
+
+theorem hess_at_own_node (hvs : Set.InjOn v s) (j : ι) (hj : j ∈ s) {c : F} (hc : c ≠ 0) :
+    2 * ((∑ p ∈ s.erase j, (c * nodalWeight s v p / (c * nodalWeight s v j)) / (v j - v p)) *
+         (∑ p ∈ s.erase j, (c * nodalWeight s v p / (c * nodalWeight s v j)) / (v j - v p))) +
+      2 * (∑ p ∈ s.erase j, (c * nodalWeight s v p / (c * nodalWeight s v j)) / ((v j - v p) * (v j - v p))) =
+      eval (v j) (derivative (derivative (Lagrange.basis s v j))) :=
+  Amisc.Bary.d2Basis_at_own_node hvs j hj hc
+
+/-! ## the executable list model (`dBasis`, `d2Basis`, `gradT`, `hessT`) -/
+
+open Amisc.LL Amisc.Tensor Amisc.TD
+
+/-- the 1-d factor `Lagrange.gradient` computes is the derivative of the basis polynomial — all node branches -/
+theorem model_dBasis_is_derivative (grid ws : List Q) (hg : GoodDim grid ws) (x : Q) (j : ℕ) (hj : j < grid.length) :
+    dBasis 0 x grid ws j = eval x (derivative (Lagrange.basis (range grid.length) (nodeFn grid) j)) := by
+  obtain ⟨c, hc, hw⟩ := hg.wt
+  exact dBasis_eq_eval grid ws hg.nodup hg.len c hc hw x j hj
+
+/-- the diagonal 1-d factor `Lagrange.hessian` computes is the second derivative — all node branches -/
+theorem model_d2Basis_is_second_derivative (grid ws : List Q) (hg : GoodDim grid ws) (x : Q) (j : ℕ)
+    (hj : j < grid.length) :
+    d2Basis 0 x grid ws j =
+      eval x (derivative (derivative (Lagrange.basis (range grid.length) (nodeFn grid) j))) := by
+  obtain ⟨c, hc, hw⟩ := hg.wt
+  exact d2Basis_eq_eval grid ws hg.nodup hg.len c hc hw x j hj
+
+/-- **C11 for one tensor term**: gradient and diagonal Hessian entry are the first and second derivative, in `x_m`, of the
+    polynomial that the prediction evaluates (any data, any output column, any point). -/
+theorem jacobian_hessian_are_derivatives (st : LState) (x : List Q) (hd : st.grids.length = x.length)
+    (rows : List (List Q)) (o : ℕ) (ho : o < (rows.head?.map List.length).getD 0) (m : ℕ) (hm : m < x.length)
+    (hg : GoodDim (st.grids.getD m []) (st.wts.getD m [])) :
+    (∀ t, (predictT 0 st rows (x.set m t)).getD o 0 = eval t (slicePoly st x m rows o fun _ => 0)) ∧
+    (gradT 0 st rows x m).getD o 0 = eval (x.getD m 0) (derivative (slicePoly st x m rows o fun _ => 0)) ∧
+    (hessT 0 st rows x m m).getD o 0 =
+      eval (x.getD m 0) (derivative (derivative (slicePoly st x m rows o fun _ => 0))) :=
+  grad_hess_are_derivatives st x hd rows o ho m hm hg
+
+/-- **cross terms** `(m,n)`, `m ≠ n`: derivative in `x_n` of the polynomial whose value is the gradient entry `m` -/
+theorem hessian_cross_is_derivative (st : LState) (x : List Q) (hd : st.grids.length = x.length)
+    (rows : List (List Q)) (o : ℕ) (ho : o < (rows.head?.map List.length).getD 0) (m n : ℕ) (hmn : m ≠ n)
+    (hn : n < x.length) (hg : GoodDim (st.grids.getD n []) (st.wts.getD n [])) :
+    (∀ t, (gradT 0 st rows (x.set n t) m).getD o 0 =
+      eval t (slicePoly st x n rows o fun d => if d = m then 1 else 0)) ∧
+    (hessT 0 st rows x m n).getD o 0 =
+      eval (x.getD n 0) (derivative (slicePoly st x n rows o fun d => if d = m then 1 else 0)) :=
+  hess_cross_is_derivative st x hd rows o ho m n hmn hn hg
 
 /-! non-vacuity: three rational nodes 0, 1, 1/2 -/
 example : Set.InjOn (fun i : Fin 3 => ([0, 1, 1/2] : List ℚ).getD i 0) (Finset.univ : Finset (Fin 3)) := by
